@@ -36,9 +36,9 @@ def probe(eng, fen, go):
     return normalise(ls), best
 
 
-def prior_session(eng, rnd, fens, nprior, script):
+def prior_session(eng, rnd, fens, nprior, script, probe_hash=16):
     changed = {}
-    defaults = dict(Hash=16, Threads=1, MultiPV=1, Contempt=0, UseNullMove="true", Strength=1000, OwnBook="false",
+    defaults = dict(Hash=probe_hash, Threads=1, MultiPV=1, Contempt=0, UseNullMove="true", Strength=1000, OwnBook="false",
                     UCI_AnalyseMode="false", AnalyzeContempt=0, Ponder="false", MaxNPS=0, UCI_LimitStrength="false")
 
     def send(c):
@@ -47,7 +47,7 @@ def prior_session(eng, rnd, fens, nprior, script):
 
     for i in range(nprior):
         if rnd.random() < .35:
-            name, val = rnd.choice([("Hash", 1), ("Hash", 64), ("Threads", 2), ("Threads", 4), ("MultiPV", 3), ("Contempt", 80), ("Contempt", -40),
+            name, val = rnd.choice([("Hash", 2), ("Hash", 64), ("Threads", 2), ("Threads", 4), ("MultiPV", 3), ("Contempt", 80), ("Contempt", -40),
                                     ("UseNullMove", "false"), ("Strength", 300), ("OwnBook", "true"), ("UCI_AnalyseMode", "true"),
                                     ("AnalyzeContempt", 50), ("Ponder", "true"), ("UCI_LimitStrength", "true")])
             changed[name] = val
@@ -89,27 +89,51 @@ def prior_session(eng, rnd, fens, nprior, script):
 
 
 def case(args):
-    seed, fens, nprior, maxd = args
+    seed, fens, nprior, maxd = args[:4]
+    directed = args[4] if len(args) > 4 else None
     rnd = random.Random(seed)
     fen = rnd.choice(fens)
     go = ("go depth %d" % rnd.randint(6, maxd)) if rnd.random() < .7 else ("go nodes %d" % rnd.choice([20000, 100000, 300000]))
-    res = dict(viol=[], sample="%s | %s | prior=%d" % (fen, go, nprior), nprior=nprior)
+    # the probe's hash size is part of the case: small tables make replacement and index mapping matter
+    # (8 MB is the smallest size that can host an on-demand tablebase)
+    ph = rnd.choice([1, 8, 8, 16])
+    if directed == "tb8":          # a resident on-demand tablebase before Clear Hash, probe large relative to an 8 MB table
+        ph, go = 8, "go depth %d" % min(10, maxd + 1)
+        fen = rnd.choice(["rnbqkbnr/pppppppp/8/8/8/8/PPPPPPPP/RNBQKBNR w KQkq - 0 1", "r1bqkbnr/pppp1ppp/2n5/4p3/4P3/5N2/PPPP1PPP/RNBQKB1R w KQkq - 2 3"])
+    elif directed == "contempt1":  # a non-zero contempt search before Clear Hash, probe large relative to a 1 MB table
+        ph, go = 1, "go depth %d" % min(10, maxd + 1)
+        fen = rnd.choice(["rnbqkbnr/pppppppp/8/8/8/8/PPPPPPPP/RNBQKBNR w KQkq - 0 1", "r1bq1rk1/pp2bppp/2n1pn2/2pp4/3P1B2/2PBPN2/PP1N1PPP/R2QK2R w KQ - 0 8",
+                          "r1bqkbnr/pppp1ppp/2n5/4p3/4P3/5N2/PPPP1PPP/RNBQKB1R w KQkq - 2 3", "rnbqkb1r/pp2pppp/3p1n2/8/3NP3/2N5/PPP2PPP/R1BQKB1R b KQkq - 2 5"])
+    res = dict(viol=[], sample="%s | %s | Hash %d | prior=%d" % (fen, go, ph, nprior), nprior=nprior)
     a = uci.Engine("rel", NET)
-    a.send("uci"); a.isready()
+    a.send("uci"); a.send("setoption name Hash value %d" % ph); a.isready()
     ta, _ = probe(a, fen, go)
     a.close()
     a2 = uci.Engine("rel", NET)
-    a2.send("uci"); a2.isready()
+    a2.send("uci"); a2.send("setoption name Hash value %d" % ph); a2.isready()
     ta2, _ = probe(a2, fen, go)
     ta2b, _ = None, None
     a2.close()
     if ta != ta2:
-        res["viol"].append(("fresh-not-deterministic", "%s | %s" % (fen, go), diff(ta, ta2)))
+        res["viol"].append(("fresh-not-deterministic", "%s | %s | Hash %d" % (fen, go, ph), diff(ta, ta2)))
         return res
     b = uci.Engine("rel", NET)
     script = []
-    b.send("uci"); b.isready()
-    ok = prior_session(b, rnd, fens, nprior, script)
+    b.send("uci"); b.send("setoption name Hash value %d" % ph); b.isready()
+    script.append("setoption name Hash value %d" % ph)
+    if directed == "tb8":
+        for f in rnd.sample(PRIOR_FENS[:3], 2):
+            b.send("position fen " + f); script.append("position fen " + f)
+            st0 = b.nlines(); b.send("go infinite"); script.append("go infinite")
+            b.wait_for(lambda l: " tbhits " in l, st0, 10.0)
+            b.send("stop"); script.append("stop")
+            b.wait_for(lambda l: l.startswith("bestmove"), st0, 60)
+    elif directed == "contempt1":
+        for cmd in ("setoption name Contempt value %d" % rnd.choice([80, -60, 300]), "position fen " + rnd.choice(fens), "go depth 6"):
+            b.send(cmd); script.append(cmd)
+        b.wait_for(lambda l: l.startswith("bestmove"), 0, 120)
+        b.send("setoption name Contempt value 0"); script.append("setoption name Contempt value 0")
+    ok = prior_session(b, rnd, fens, nprior if not directed else rnd.randint(0, 3), script, ph)
     if not ok:
         b.close("kill")
         res["inconclusive"] = "prior session did not answer: " + " ; ".join(script[-6:])
@@ -121,9 +145,9 @@ def case(args):
     b.close()
     sc = " ; ".join(script)
     if tb != ta:
-        res["viol"].append(("clear-hash-differs-from-fresh", "%s | %s | prior(%d): %s" % (fen, go, nprior, sc), diff(ta, tb)))
+        res["viol"].append(("clear-hash-differs-from-fresh", "%s | %s | Hash %d | prior(%d): %s" % (fen, go, ph, nprior, sc), diff(ta, tb)))
     elif tb2 != ta:
-        res["viol"].append(("second-clear-hash-differs", "%s | %s | prior(%d): %s" % (fen, go, nprior, sc), diff(ta, tb2)))
+        res["viol"].append(("second-clear-hash-differs", "%s | %s | Hash %d | prior(%d): %s" % (fen, go, ph, nprior, sc), diff(ta, tb2)))
     res["lines"] = len(ta)
     return res
 
@@ -146,7 +170,9 @@ def run(c):
     forced = [14, 15, 16, 17, 18, 30, 31, 32, 33, 34]
     for i in range(n):
         nprior = forced[i % len(forced)] if i % 3 == 0 else rnd.randint(1, 40)
-        jobs.append((c.seed * 100000 + i, fens, nprior, 8 if quick else 11))
+        jobs.append((c.seed * 100000 + i, fens, nprior, 9 if quick else 11))
+    for i in range(max(6, n // 5)):
+        jobs.append((c.seed * 100000 + 50000 + i, fens, 2, 9 if quick else 11, "tb8" if i % 3 == 0 else "contempt1"))
     npr = []
     seen = set()
     with concurrent.futures.ThreadPoolExecutor(max_workers=core.NCPU) as ex:
@@ -162,9 +188,9 @@ def run(c):
                 c.sample(r["sample"])
     c.evaluations = len(jobs)
     c.distinct = len(seen)
-    c.rule = ("one case = (probe position, probe command depth 6..9 or nodes, seeded prior session of 1..40 searches of all limit kinds on unrelated positions incl. "
+    c.rule = ("one case = (probe position, probe command depth 6..9 or nodes, probe hash size 1/8/16 MB set at the start of both processes, seeded prior session of 1..40 searches of all limit kinds on unrelated positions incl. "
               "<=4-men 'go infinite' until tbhits, ucinewgame, option changes reverted before Clear Hash); compared transcripts: every 'info ... score ... nodes ... pv' line "
               "(time/nps removed), final node count and the bestmove line; fresh engine run twice (determinism), probe repeated after a second Clear Hash; "
-              "prior lengths 14..18 and 30..34 forced in a third of the cases; distinct_nontrivial = distinct (position, probe, prior length)")
+              "prior lengths 14..18 and 30..34 forced in a third of the cases; directed cases: tablebase left resident at Hash 8 before Clear Hash with a depth-10 probe, non-zero contempt search at Hash 1 with a depth-9 probe; distinct_nontrivial = distinct (position, probe, prior length)")
     c.extra.update(prior_lengths_min=min(npr), prior_lengths_max=max(npr), cases_with_prior_15_to_17=len([x for x in npr if 15 <= x <= 17]), exhaustive=False)
     c.assumptions += ["Threads=1 in the probe; synthetic network material_1"]
